@@ -138,6 +138,60 @@ def restored_checkpoint(kind, seed=0):
     return fails[:3]
 
 
+def nested_fit(kind, seed=0):
+    """A callback of a running fit trains the same state for one epoch with another learning rate, optimizer class and
+    scheduler: the outer run goes on with its own optimizer, learning rate and scheduler."""
+    from qucumber.callbacks import LambdaCallback
+    rng = np.random.default_rng(seed)
+    torch.manual_seed(seed)
+    st = C.make_state(kind, 2, 2, 1)
+    N, B = 5, 2
+    data = torch.tensor(rng.integers(0, 2, size=(N, 2)), dtype=torch.double)
+    kw = {}
+    if kind != "positive":
+        b = np.array([list(rng.choice(["XZ", "ZZ", "ZY"])) for _ in range(N)])
+        b[0] = list("ZZ")
+        kw["input_bases"] = b
+    log = []
+
+    def mk(tag):
+        class Opt(torch.optim.SGD):
+            def step(self, *a, **k_):
+                before = [p.detach().clone() for p in self.param_groups[0]["params"]]
+                grads = [p.grad.detach().clone() for p in self.param_groups[0]["params"]]
+                r = super().step(*a, **k_)
+                lr_ = self.param_groups[0]["lr"]
+                ok = all(torch.allclose(p.detach(), b0 - lr_ * g, rtol=1e-12, atol=1e-14) for p, b0, g in zip(self.param_groups[0]["params"], before, grads))
+                log.append((tag, lr_, ok))
+                return r
+        return Opt
+    sched_steps = {"outer": 0}
+
+    class Sched(torch.optim.lr_scheduler.StepLR):
+        def step(self, *a, **k_):
+            sched_steps["outer"] += 1
+            return super().step(*a, **k_)
+    done = [False]
+
+    def nested(s, e):
+        if e == 1 and not done[0]:
+            done[0] = True
+            s.fit(data, epochs=1, pos_batch_size=B, k=1, lr=0.5, optimizer=mk("inner"), **kw)
+    st.fit(data, epochs=3, pos_batch_size=B, k=1, lr=0.05, optimizer=mk("outer"), scheduler=Sched, scheduler_args={"step_size": 1, "gamma": 0.5},
+           callbacks=[LambdaCallback(on_epoch_end=nested)], **kw)
+    nb = math.ceil(N / B)
+    want = [("outer", 0.05)] * nb + [("inner", 0.5)] * nb + [("outer", 0.025)] * nb + [("outer", 0.0125)] * nb
+    f = []
+    if [(t, round(l, 12)) for t, l, _ in log] != want:
+        f.append("after a nested fit of the same state (lr 0.5) the outer run's steps are %s, expected its own optimizer at 0.05 / 0.025 / 0.0125"
+                 % ([(t, round(l, 6)) for t, l, _ in log][nb * 2:nb * 2 + 3],))
+    if not all(ok for _, _, ok in log):
+        f.append("a step did not move the parameters by -lr * .grad")
+    if sched_steps["outer"] != 3 + 1:
+        f.append("the outer scheduler advanced %d times for 3 epochs" % (sched_steps["outer"] - 1))
+    return f
+
+
 def cases(quick):
     c = [("positive", 5, 2, None, 1), ("positive", 4, 4, 3, 0), ("complex", 5, 3, 2, 2), ("mixed", 4, 2, None, 1)]
     if not quick:
@@ -147,6 +201,10 @@ def cases(quick):
 
 def replay(cfg):
     fails = []
+    for kind in ("positive", "complex"):
+        f = nested_fit(kind)
+        if f:
+            fails.append(((kind, "nested fit of the same state from a callback"), f[:2]))
     for kind in ("positive", "complex"):
         f = restored_checkpoint(kind)
         if f:
@@ -160,6 +218,11 @@ def replay(cfg):
 
 def bounded(tier, seed):
     bad, n = [], 0
+    for kind in ("positive", "complex"):
+        f = nested_fit(kind, seed)
+        n += 1
+        if f:
+            bad.append(((kind, "nested fit of the same state from a callback"), f[:2]))
     for kind in ("positive", "complex", "mixed"):
         f = restored_checkpoint(kind, seed)
         n += 1
